@@ -61,24 +61,14 @@ Proof. exact rx_spec. Qed.
 Print Assumptions C13_probe_reject_iff.
 
 (* ---- StopHunt is undone ----
-   s0 is any state (in particular the state after any event sequence `pre`) in which loop i, started for
-   address a, is running and the handler is open.  After StopHunt of a's MAC and any events `mid` without a
-   wake-up of loop i, a Close or a new StartHunt of that MAC, the NEXT wake-up of loop i emits exactly the
-   packet restoring the router's real MAC at a's MAC, loop i has returned, and in every continuation `post`
-   without a StartHunt of that MAC no forged frame is addressed to it any more (outside K1).
-   Hypothesis K2 = false excludes the recorded defect (#27): another hunted MAC carries the same IPv4. *)
-Theorem C13_stop_undone_refuted :
-  exists c pre a i mid hint,
-    cfg_ok c /\
-    let s0 := final c init_state pre in
-    loop_is s0 i a true /\ closed s0 = false /\
-    none_of (is_wake_of i) mid /\ none_of is_close mid /\ none_of (is_start_of (amac a)) mid /\
-    let s1 := final c s0 (StopHunt (amac a) :: mid) in
-    step c s1 (Wake i hint) = (s1, [announce c wit_m2]) /\ loop_is s1 i a true /\ hunted s1 (amac a) = false.
-Proof. exact stop_undone_refuted. Qed.
-Print Assumptions C13_stop_undone_refuted.
-
-Theorem C13_stop_undone_partial : forall c pre a i mid hint post,
+   s0 is the state after ANY event sequence `pre` in which loop i, started for address a, is running and
+   the handler is open.  After StopHunt of a's MAC and any events `mid` without a wake-up of loop i, a Close
+   or a new StartHunt of that MAC, the NEXT wake-up of loop i emits exactly the packet restoring the router's
+   real MAC at a's MAC, loop i has returned, and in every continuation `post` without a StartHunt of that MAC
+   no forged frame is addressed to it any more (outside K1).
+   Full strength since the repair of DESIGN #27 (loop membership by MAC); before the repair the statement
+   was refuted by two hunted MACs sharing an IPv4 address (verif commit e3a3954 has that refutation). *)
+Theorem C13_stop_undone : forall c pre a i mid post,
   cfg_ok c ->
   let s0 := final c init_state pre in
   loop_is s0 i a true -> closed s0 = false ->
@@ -86,40 +76,46 @@ Theorem C13_stop_undone_partial : forall c pre a i mid hint post,
   none_of (is_start_of (amac a)) post ->
   let s1 := final c s0 (StopHunt (amac a) :: mid) in
   let s2 := set_loops s1 (kill i (loops s1)) in
-  known_C13_shared_ip s1 i = false ->
-  step c s1 (Wake i hint) = (s2, [restore c (amac a)]) /\
+  step c s1 (Wake i) = (s2, [restore c (amac a)]) /\
   loop_is s2 i a false /\
   forall s e out f, In (s, e, out) (trace c s2 post) -> In f out -> forged c f = true ->
     known_C13_probe_router c s e = false -> fedst f <> amac a.
-Proof. intros c pre. exact (stop_undone_partial c (final c init_state pre)). Qed.
-Print Assumptions C13_stop_undone_partial.
+Proof. intros c pre. exact (stop_undone c (final c init_state pre)). Qed.
+Print Assumptions C13_stop_undone.
 
 Example C13_stop_undone_nonvacuous :
   let c := wit_cfg in
   let a := mkAddr wit_m1 3232235522 in
-  let s0 := final c init_state [StartHunt a; Wake 0 wit_m1; StartHunt (mkAddr wit_m2 3232235523); Wake 1 wit_m2] in
-  let mid := [RxArp (mkPkt 1 wit_m1 wit_m1 3232235522 0 3232235531); Wake 1 wit_m2] in
+  let s0 := final c init_state [StartHunt a; Wake 0; StartHunt (mkAddr wit_m2 3232235522); Wake 1] in
+  let mid := [RxArp (mkPkt 1 wit_m1 wit_m1 3232235522 0 3232235531); Wake 1] in
   loop_is s0 0 a true /\ closed s0 = false /\
   none_of (is_wake_of 0) mid /\ none_of is_close mid /\ none_of (is_start_of (amac a)) mid /\
-  known_C13_shared_ip (final c s0 (StopHunt (amac a) :: mid)) 0 = false /\
-  outputs c s0 (StopHunt (amac a) :: mid ++ [Wake 0 0; Wake 0 0; Wake 1 wit_m2]) =
+  outputs c s0 (StopHunt (amac a) :: mid ++ [Wake 0; Wake 0; Wake 1]) =
     [[]; []; [announce c wit_m2]; [restore c wit_m1]; []; [announce c wit_m2]].
 Proof. exact stop_undone_nonvacuous. Qed.
 Print Assumptions C13_stop_undone_nonvacuous.
 
+(* while its MAC is hunted and the handler is open, a running loop's wake-up sends exactly one forged
+   announcement, to its own MAC, and the loop keeps running ("periodically while hunted") *)
+Theorem C13_hunted_wake_announces : forall c s i a,
+  loop_is s i a true -> closed s = false -> hunted s (amac a) = true ->
+  step c s (Wake i) = (s, [announce c (amac a)]).
+Proof. exact hunted_wake_announces. Qed.
+Print Assumptions C13_hunted_wake_announces.
+
 (* a loop that has returned stays returned and silent, whatever happens (any state) *)
 Theorem C13_dead_loop_silent : forall c s e i a,
   loop_is s i a false ->
-  loop_is (fst (step c s e)) i a false /\ forall h, step c s (Wake i h) = (s, []).
-Proof. intros c s e i a H. split; [apply step_dead_stays; exact H | intro h; eapply wake_dead_silent; exact H]. Qed.
+  loop_is (fst (step c s e)) i a false /\ step c s (Wake i) = (s, []).
+Proof. intros c s e i a H. split; [apply step_dead_stays; exact H | eapply wake_dead_silent; exact H]. Qed.
 Print Assumptions C13_dead_loop_silent.
 
 (* ---- Close stops all loops ----
    In every run, every wake-up of any loop after a Close emits nothing and that loop has returned. *)
-Theorem C13_close_stops_loops : forall c pre post s i hint out,
-  In (s, Wake i hint, out) (trace c (final c init_state (pre ++ [Close])) post) ->
+Theorem C13_close_stops_loops : forall c pre post s i out,
+  In (s, Wake i, out) (trace c (final c init_state (pre ++ [Close])) post) ->
   out = [] /\
-  forall lp, nth_error (loops (fst (step c s (Wake i hint)))) i = Some lp -> alive lp = false.
+  forall lp, nth_error (loops (fst (step c s (Wake i)))) i = Some lp -> alive lp = false.
 Proof. exact close_stops_loops. Qed.
 Print Assumptions C13_close_stops_loops.
 
@@ -141,9 +137,9 @@ Print Assumptions C13_close_stops_partial.
 
 Example C13_close_stops_nonvacuous :
   let c := wit_cfg in
-  outputs c init_state [StartHunt (mkAddr wit_m1 3232235522); Wake 0 wit_m1; Close; Wake 0 0; Wake 0 0] =
+  outputs c init_state [StartHunt (mkAddr wit_m1 3232235522); Wake 0; Close; Wake 0; Wake 0] =
     [[]; [announce c wit_m1]; []; []; []] /\
-  loop_is (final c init_state [StartHunt (mkAddr wit_m1 3232235522); Wake 0 wit_m1; Close; Wake 0 0]) 0
+  loop_is (final c init_state [StartHunt (mkAddr wit_m1 3232235522); Wake 0; Close; Wake 0]) 0
           (mkAddr wit_m1 3232235522) false.
 Proof. exact close_stops_nonvacuous. Qed.
 Print Assumptions C13_close_stops_nonvacuous.
